@@ -176,8 +176,8 @@ PROPS["C02"] = dict(
     explanation=("Verus: State::holding extracted verbatim and verified against the C01 registry contracts and an arbitrary closure "
                  "(unbounded). Kani: borrow-conflict mapping, distinct() and multi-borrow aliasing triples at enumerated shapes."),
     verus=[dict(name="holding", template="contracts/C02/holding.vrs", expect=["State<'a, P>::holding"])],
-    kani=[],
-    min_obligations={"quick": 3, "thorough": 3},
+    kani=[dict(files=["contracts/C02/c02.rs"], map_shim=True, map_shim_files=["src/state/registry/mod.rs", "src/state/registry/entry.rs", "src/state/registry/multi.rs"], harness_timeout="900s", timeout_s=2700)],
+    min_obligations={"quick": 10, "thorough": 10},
     uncovered=["the reader-count state machine itself is std::cell::RefCell's contract (assumed)"],
 )
 PROPS["C10"] = dict(
@@ -187,8 +187,8 @@ PROPS["C10"] = dict(
     verus=[dict(name="logical", template="contracts/C10/logical.vrs",
                 expect=["<Not<P> as Condition<P>>::evaluate", "impl<P, L> Condition<P> for EveryN<L>::evaluate"]),
            dict(name="changeof", template="contracts/C10/changeof.vrs", expect=["impl<P, L> Condition<P> for ChangeOf<L>::evaluate"])],
-    kani=[],
-    min_obligations={"quick": 9, "thorough": 9},
+    kani=[dict(files=["contracts/C10/c10.rs"])],
+    min_obligations={"quick": 14, "thorough": 14},
     uncovered=["And/Or::evaluate (closure capturing &mut state: Verus rejects; Kani does not terminate)", "LessThanN (generic float-like target)",
                "OptimumReached", "RandomChance (probability)", "'exactly n passes' composition theorem"],
 )
@@ -201,8 +201,8 @@ PROPS["C11"] = dict(
     verus=[dict(name="driver", template="contracts/C11/driver.vrs", expect=["selection"]),
            dict(name="operators", template="contracts/C11/operators.vrs",
                 expect=["<LinearRank as Selection<P>>::select", "<RandomWithoutRepetition as Selection<P>>::select"])],
-    kani=[],
-    min_obligations={"quick": 20, "thorough": 20},
+    kani=[dict(files=["contracts/C11/c11.rs"])],
+    min_obligations={"quick": 30, "thorough": 33},
     uncovered=["ExponentialRank (float powi)", "RouletteWheel / SUS (float accumulation)", "tournament sampling", "DE selections",
                "FullyRandom (rejection-sampling loop over a symbolic RNG is unbounded)"],
 )
@@ -212,8 +212,8 @@ PROPS["C15"] = dict(
                  "arbitrary triggers/extractors and the abstract form of holding's contract (C02). Kani: Step::push / CompressedLog."),
     verus=[dict(name="logging", template="contracts/C15/logging.vrs",
                 expect=["ExtractionRule<P>::execute", "LogConfig<P>::execute", "<Logger as Component<P>>::execute"])],
-    kani=[],
-    min_obligations={"quick": 3, "thorough": 3},
+    kani=[dict(files=["contracts/C15/c15.rs"])],
+    min_obligations={"quick": 4, "thorough": 4},
     uncovered=["JSON/CBOR/RON serialisation and decoding", "every template serialises / distinct configurations serialise differently"],
 )
 
